@@ -25,6 +25,7 @@ fn main() {
         "replay" => runner::replay_cmd(&args[2..]),
         "sweepworker" => runner::sweep_worker(&args[2..]),
         "fuzzjudge" => cxcheck::fuzz::judge_cmd(&args[2..]),
+        "scaleprobe" => cxcheck::c15::scaleprobe_cmd(&args[2..]),
         _ => {
             eprintln!("unknown command {}", args[1]);
             2
